@@ -1,4 +1,5 @@
 import PqModel.VariantLemmas
+import PqModel.VariantShredLemmas
 
 /-!
 # C19 — variant values survive encoding
@@ -116,5 +117,28 @@ theorem canon_obj_of_perm (fs gs : List (Key × Value)) (hp : fs.Perm gs) (hnd :
   congr 1
   apply isort_eq_of_perm _ _ _ (hp.map _)
   simpa [keysOf, List.map_map, canonField, Function.comp_def] using hnd
+
+
+/-! ## shredding (logical model: one `(value, typed_value)` slot per variant group occurrence;
+    `shred`/`unshred` MIRROR `variant_shredded_write.go` / `variant_shredded_read.go`) -/
+
+/-- **C19 (shredding).** For every shredding schema — no typed_value, a primitive column of any
+    type, lists, fully or partially shredded objects, nested to any depth — and every value,
+    reconstructing what the writer shredded gives the value written, up to object field order:
+    type mismatches fall back to `value`, partially shredded objects are reassembled from the
+    typed fields and the residual object, missing fields are omitted. -/
+theorem unshred_shred (s : Schema) (v : Value) (hs : wfS s = true) (hv : distinctKeys v = true) :
+    ∃ r, unshred s (shred s v) = some r ∧ canon r = canon v := by
+  obtain ⟨r, hr, hc⟩ := shredOK s hs v hv
+  exact ⟨r, by simp [unshred, hr, RRes.orNull], hc⟩
+
+/-- a partially shredding schema: `a` as int8, `z` as a list of strings, `q` untyped, while the
+    example value also has the fields `` and `m` (residual) and a `z` of another type. -/
+def exampleSchema : Schema :=
+  .obj [([0x61], .list (.prim .string)), ([0x71], .untyped), ([0x7a], .prim .int8),
+        ([], .obj [([0x62], .prim .uuid), ([0x63], .prim .bool)])]
+
+example : wfS exampleSchema = true := by decide
+example : distinctKeys exampleValue = true := by decide
 
 end PqModel.Variant
